@@ -117,7 +117,10 @@ Record st := {
   hlog : list hlentry;
   txs : list txrec;
   evs : list tev;
-  crashed : bool                (* a panic escaped to the caller *)
+  crashed : bool;               (* a panic escaped to the caller *)
+  loop_dead : bool;             (* the handler goroutine died and was not restarted *)
+  hung : bool;                  (* a call blocked forever on the dead handler loop *)
+  err_code : N                  (* Machine.Err(): 0 nil, 1 AddErr error, 2 recovered panic *)
 }.
 
 Definition has_handlers (s : st) : bool := negb (Nat.eqb (length (bindings s)) 0).
@@ -132,49 +135,56 @@ Definition set_queue (s : st) q :=
   {| sc := sc s; topo := topo s; health := health s; exc := exc s; bindings := bindings s;
      qlimit := qlimit s; clock := clock s; active := active s; queue := q;
      qtick := qtick s; qpending := qpending s; actions := actions s;
-     hlog := hlog s; txs := txs s; evs := evs s; crashed := crashed s |}.
+     hlog := hlog s; txs := txs s; evs := evs s; crashed := crashed s; loop_dead := loop_dead s; hung := hung s; err_code := err_code s |}.
 
 Definition set_ticks (s : st) qt qp :=
   {| sc := sc s; topo := topo s; health := health s; exc := exc s; bindings := bindings s;
      qlimit := qlimit s; clock := clock s; active := active s; queue := queue s;
      qtick := qt; qpending := qp; actions := actions s;
-     hlog := hlog s; txs := txs s; evs := evs s; crashed := crashed s |}.
+     hlog := hlog s; txs := txs s; evs := evs s; crashed := crashed s; loop_dead := loop_dead s; hung := hung s; err_code := err_code s |}.
 
 Definition set_mach (s : st) cl ac :=
   {| sc := sc s; topo := topo s; health := health s; exc := exc s; bindings := bindings s;
      qlimit := qlimit s; clock := cl; active := ac; queue := queue s;
      qtick := qtick s; qpending := qpending s; actions := actions s;
-     hlog := hlog s; txs := txs s; evs := evs s; crashed := crashed s |}.
+     hlog := hlog s; txs := txs s; evs := evs s; crashed := crashed s; loop_dead := loop_dead s; hung := hung s; err_code := err_code s |}.
 
 Definition set_actions (s : st) a :=
   {| sc := sc s; topo := topo s; health := health s; exc := exc s; bindings := bindings s;
      qlimit := qlimit s; clock := clock s; active := active s; queue := queue s;
      qtick := qtick s; qpending := qpending s; actions := a;
-     hlog := hlog s; txs := txs s; evs := evs s; crashed := crashed s |}.
+     hlog := hlog s; txs := txs s; evs := evs s; crashed := crashed s; loop_dead := loop_dead s; hung := hung s; err_code := err_code s |}.
 
 Definition set_hlog (s : st) h :=
   {| sc := sc s; topo := topo s; health := health s; exc := exc s; bindings := bindings s;
      qlimit := qlimit s; clock := clock s; active := active s; queue := queue s;
      qtick := qtick s; qpending := qpending s; actions := actions s;
-     hlog := h; txs := txs s; evs := evs s; crashed := crashed s |}.
+     hlog := h; txs := txs s; evs := evs s; crashed := crashed s; loop_dead := loop_dead s; hung := hung s; err_code := err_code s |}.
 
 Definition add_tx (s : st) t :=
   {| sc := sc s; topo := topo s; health := health s; exc := exc s; bindings := bindings s;
      qlimit := qlimit s; clock := clock s; active := active s; queue := queue s;
      qtick := qtick s; qpending := qpending s; actions := actions s;
-     hlog := hlog s; txs := t :: txs s; evs := evs s; crashed := crashed s |}.
+     hlog := hlog s; txs := t :: txs s; evs := evs s; crashed := crashed s; loop_dead := loop_dead s; hung := hung s; err_code := err_code s |}.
 
 Definition add_ev (s : st) e :=
   {| sc := sc s; topo := topo s; health := health s; exc := exc s; bindings := bindings s;
      qlimit := qlimit s; clock := clock s; active := active s; queue := queue s;
      qtick := qtick s; qpending := qpending s; actions := actions s;
-     hlog := hlog s; txs := txs s; evs := e :: evs s; crashed := crashed s |}.
+     hlog := hlog s; txs := txs s; evs := e :: evs s; crashed := crashed s; loop_dead := loop_dead s; hung := hung s; err_code := err_code s |}.
 
 Definition set_crashed (s : st) :=
   {| sc := sc s; topo := topo s; health := health s; exc := exc s; bindings := bindings s;
      qlimit := qlimit s; clock := clock s; active := active s; queue := queue s;
      qtick := qtick s; qpending := qpending s; actions := actions s;
-     hlog := hlog s; txs := txs s; evs := evs s; crashed := true |}.
+     hlog := hlog s; txs := txs s; evs := evs s; crashed := true; loop_dead := loop_dead s; hung := hung s; err_code := err_code s |}.
+
+Definition set_fault_flags (s : st) (dead hg : bool) (ec : N) :=
+  {| sc := sc s; topo := topo s; health := health s; exc := exc s; bindings := bindings s;
+     qlimit := qlimit s; clock := clock s; active := active s; queue := queue s;
+     qtick := qtick s; qpending := qpending s; actions := actions s;
+     hlog := hlog s; txs := txs s; evs := evs s; crashed := crashed s;
+     loop_dead := dead; hung := hg; err_code := ec |}.
 
 (* ------------------------------------------------------------ clocks *)
 
@@ -257,7 +267,7 @@ Definition nested_api (s : st) (c : api_call) : st * result :=
   | KToggle => if mach_is s (ac_states c) then nested_remove s (ac_states c) (ac_args c)
                else nested_add s (ac_states c) (ac_args c)
   | KAddErr => if limit_hit s then (s, Canceled)
-               else nested_add s [exc s; exc s] true
+               else nested_add (set_fault_flags s (loop_dead s) (hung s) 1) [exc s; exc s] true
   | KCanAdd => (prepend_mut s (check_mut MAdd (ac_states c) (ac_args c)), Queued 2)
   | KCanRemove => (prepend_mut s (check_mut MRemove (ac_states c) false), Queued 2)
   end.
@@ -271,36 +281,6 @@ Fixpoint run_calls (s : st) (cs : list api_call) : st * list result :=
               let '(s2, rs) := run_calls s1 r in (s2, res :: rs)
   end.
 
-(* Machine.handle / processHandlers for one event name: calls every binding
-   that defines it, in binding order; a negotiation handler returning false
-   stops. Returns (state, not canceled). *)
-Fixpoint call_bindings (s : st) (k : hkey) (bs : list (list hkey)) (bi : nat) : st * bool :=
-  match bs with
-  | [] => (s, true)
-  | b :: rest =>
-    if existsb (hkey_eqb k) b then
-      let a := hd default_action (actions s) in
-      let s0 := set_actions s (tl (actions s)) in
-      let snap_active := active s0 in
-      let snap_clock := clock s0 in
-      let '(s1, rs) := run_calls s0 (ha_calls a) in
-      let e := {| hl_key := k; hl_binding := bi; hl_active := snap_active;
-                  hl_clock := snap_clock; hl_results := rs; hl_ret := ha_ret a |} in
-      let s2 := set_hlog s1 (e :: hlog s1) in
-      if negb (is_final_key k) && negb (ha_ret a) then (s2, false)
-      else call_bindings s2 k rest (S bi)
-    else call_bindings s k rest (S bi)
-  end.
-
-Definition handle (s : st) (k : hkey) : st * bool := call_bindings s k (bindings s) 0.
-
-(* ------------------------------------------------------------ transition *)
-
-Definition is_auto_state (s : st) (x : nat) : bool := s_auto (sget (sc s) x).
-
-(* slices.Delete(target, idx, idx+1) on a duplicate-free list *)
-Definition delete_state (l : list nat) (x : nat) : list nat := without l x.
-
 (* the in-flight transition *)
 Record tstate := {
   t_mut : mutation;
@@ -309,19 +289,139 @@ Record tstate := {
   t_target : list nat;
   t_enters : list nat;
   t_exits : list nat;
-  t_accepted : bool
+  t_accepted : bool;
+  t_invalid : bool     (* IsCompleted was set by recoverToErr: Event.IsValid() is false,
+                          further handlers of this transition are not executed *)
 }.
 
 Definition with_target (t : tstate) (tg : list nat) : tstate :=
   {| t_mut := t_mut t; t_before := t_before t; t_clock_before := t_clock_before t;
-     t_target := tg; t_enters := t_enters t; t_exits := t_exits t; t_accepted := t_accepted t |}.
+     t_target := tg; t_enters := t_enters t; t_exits := t_exits t; t_accepted := t_accepted t; t_invalid := t_invalid t |}.
+
+Definition with_accepted (t : tstate) (a : bool) : tstate :=
+  {| t_mut := t_mut t; t_before := t_before t; t_clock_before := t_clock_before t;
+     t_target := t_target t; t_enters := t_enters t; t_exits := t_exits t; t_accepted := a; t_invalid := t_invalid t |}.
+
+Definition with_panicked (t : tstate) : tstate :=
+  {| t_mut := t_mut t; t_before := t_before t; t_clock_before := t_clock_before t;
+     t_target := t_target t; t_enters := t_enters t; t_exits := t_exits t; t_accepted := false;
+     t_invalid := true |}.
+
+(* Machine.recoverFinalPhase: walks exits ++ enters and, from the state the
+   failing handler belongs to (latestHandlerToState: the state for FooState
+   and FooEnd, "Any" for AnyState), reverts the states whose final handlers
+   did not complete - activations by removing, deactivations by re-adding;
+   then re-ticks through setActiveStates. *)
+Definition key_to_state (k : hkey) : option nat :=
+  match k with
+  | HState x | HEnd x | HEnter x | HSelf x => Some x
+  | HTrans _ _ | HExit _ | HAnyEnter | HAnyState => None
+  end.
+
+Fixpoint recover_walk (to : option nat) (enters : list nat) (found : bool)
+  (finals : list nat) (act : list nat) : list nat :=
+  match finals with
+  | [] => act
+  | x :: r =>
+    let found' := found || match to with Some y => Nat.eqb x y | None => false end in
+    if found' then
+      recover_walk to enters found' r
+        (if mem x enters then without act x else if mem x act then act else act ++ [x])
+    else recover_walk to enters found' r act
+  end.
+
+Definition recover_final_phase (s : st) (t : tstate) (k : hkey) : st :=
+  let act := recover_walk (key_to_state k) (t_enters t) false
+                          (t_exits t ++ t_enters t) (active s) in
+  let cl := set_active_clock (sc s) (clock s) (active s) (mu_called (t_mut t)) act in
+  set_mach s cl act.
+
+(* Machine.recoverToErr. Returns the state; the caller marks the transition
+   not accepted. When the running mutation itself calls Exception nothing is
+   done besides restarting the handler loop (since the fix of recoverToErr;
+   before it the loop was not restarted and the next handler call blocked
+   forever - the [loop_dead]/[hung] flags remain in the state for that). *)
+Definition recover_to_err (s : st) (t : tstate) (k : hkey) : st :=
+  if mem (exc s) (mu_called (t_mut t)) then s   (* no nesting: nothing but the loop restart *)
+  else
+    let s1 := set_fault_flags s (loop_dead s) (hung s) 2 in
+    let s2 := if is_final_key k then recover_final_phase s1 t k else s1 in
+    prepend_mut s2 {| mu_type := MAdd; mu_called := [exc s]; mu_auto := false;
+                      mu_check := false; mu_args := true; mu_qtick := 0 |}.
+
+(* result of one handler event *)
+Record hres := {
+  hr_ok : bool;          (* not Canceled *)
+  hr_invalidated : bool  (* recoverToErr marked the transition completed / not accepted *)
+}.
+
+Definition exc_called (s : st) (t : tstate) : bool := mem (exc s) (mu_called (t_mut t)).
+
+(* Machine.handle / processHandlers for one event name: calls every binding
+   that defines it, in binding order. A negotiation handler returning false
+   stops; a panic is recovered (recoverToErr) and counts as Canceled - for
+   final handlers the remaining bindings are still visited; a stall longer
+   than HandlerTimeout returns Canceled at once. Once recoverToErr has marked
+   the transition completed, Event.IsValid() is false: the handler function
+   is not executed any more (no scripted action is consumed) and the call
+   yields false. [caught] is Machine.panicCaught. *)
+Fixpoint call_bindings (s : st) (t : tstate) (k : hkey) (bs : list (list hkey)) (bi : nat)
+  (caught inv : bool) : st * hres :=
+  match bs with
+  | [] => (s, {| hr_ok := negb caught; hr_invalidated := inv && negb (t_invalid t) |})
+  | b :: rest =>
+    if existsb (hkey_eqb k) b then
+      if loop_dead s then
+        (* nobody receives on handlerStart any more: the caller blocks forever *)
+        (set_fault_flags s true true (err_code s),
+         {| hr_ok := false; hr_invalidated := inv && negb (t_invalid t) |})
+      else if inv then
+        (* [handler:invalid]: ret = false *)
+        if is_final_key k then call_bindings s t k rest (S bi) caught inv
+        else (s, {| hr_ok := false; hr_invalidated := negb (t_invalid t) |})
+      else
+      let a := hd default_action (actions s) in
+      let s0 := set_actions s (tl (actions s)) in
+      let snap_active := active s0 in
+      let snap_clock := clock s0 in
+      let '(s1, rs) := run_calls s0 (ha_calls a) in
+      let e := {| hl_key := k; hl_binding := bi; hl_active := snap_active;
+                  hl_clock := snap_clock; hl_results := rs; hl_ret := ha_ret a |} in
+      let s2 := set_hlog s1 (e :: hlog s1) in
+      match ha_fault a with
+      | FPanic =>
+        let s3 := recover_to_err s2 t k in
+        let inv' := negb (exc_called s t) in
+        if is_final_key k then call_bindings s3 t k rest (S bi) true inv'
+        else (s3, {| hr_ok := false; hr_invalidated := inv' |})
+      | FStall => (s2, {| hr_ok := false; hr_invalidated := false |})
+      | FNone =>
+        if negb (is_final_key k) && negb (ha_ret a)
+        then (s2, {| hr_ok := false; hr_invalidated := false |})
+        else call_bindings s2 t k rest (S bi) caught inv
+      end
+    else call_bindings s t k rest (S bi) caught inv
+  end.
+
+(* returns (state, transition, not canceled) *)
+Definition handle (s : st) (t : tstate) (k : hkey) : st * tstate * bool :=
+  let '(s1, r) := call_bindings s t k (bindings s) 0 false (t_invalid t) in
+  (s1, if hr_invalidated r then with_panicked t else t, hr_ok r).
+
+(* ------------------------------------------------------------ transition *)
+
+Definition is_auto_state (s : st) (x : nat) : bool := s_auto (sget (sc s) x).
+
+(* slices.Delete(target, idx, idx+1) on a duplicate-free list *)
+Definition delete_state (l : list nat) (x : nat) : list nat := without l x.
 
 Definition with_exit_enter (sc : schema) (topo : list nat) (active : list nat) (t : tstate) : tstate :=
   let exits := sort_states sc topo (diff active (t_target t)) in
   let enters := filter (fun x => negb (mem x active)
                           || (s_multi (sget sc x) && mem x (mu_called (t_mut t)))) (t_target t) in
   {| t_mut := t_mut t; t_before := t_before t; t_clock_before := t_clock_before t;
-     t_target := t_target t; t_enters := enters; t_exits := exits; t_accepted := t_accepted t |}.
+     t_target := t_target t; t_enters := enters; t_exits := exits; t_accepted := t_accepted t;
+     t_invalid := t_invalid t |}.
 
 Definition rctx_of (s : st) (t : tstate) : rctx :=
   {| rc_schema := sc s; rc_before := t_before t; rc_mtype := mu_type (t_mut t);
@@ -349,7 +449,7 @@ Definition new_transition (s : st) (mu : mutation) : tstate :=
   let target := target_states c (states_to_set (mu_type mu) (mu_called mu) (active s)) in
   let acc := setup_accepted s mu target in
   let t := {| t_mut := mu; t_before := active s; t_clock_before := clock s;
-              t_target := target; t_enters := []; t_exits := []; t_accepted := acc |} in
+              t_target := target; t_enters := []; t_exits := []; t_accepted := acc; t_invalid := false |} in
   if acc then with_exit_enter (sc s) (topo s) (active s) t else t.
 
 (* negotiation outcome *)
@@ -360,13 +460,15 @@ Fixpoint emit_exits (s : st) (t : tstate) (l : list nat) : st * tstate * nres :=
   match l with
   | [] => (s, t, NOk)
   | x :: r =>
-    let '(s1, ok) := handle s (HExit x) in
-    if ok then emit_exits s1 t r
-    else if mu_auto (t_mut t) && is_auto_state s x then
-      (* slices.Index(target, fromState) = -1 -> slices.Delete(_, -1, 0) panics *)
-      if mem x (t_target t) then emit_exits s1 (with_target t (delete_state (t_target t) x)) r
-      else (s1, t, NCrash)
-    else (s1, t, NCancel)
+    let '(s1, t1, ok) := handle s t (HExit x) in
+    if hung s1 then (s1, t1, NCancel)
+    else if ok then emit_exits s1 t1 r
+    else if mu_auto (t_mut t1) && is_auto_state s x then
+      (* an exiting state is never in the target: the veto cancels (before the
+         fix of emitExitEvents slices.Delete(_, -1, 0) panicked here) *)
+      if mem x (t_target t1) then emit_exits s1 (with_target t1 (delete_state (t_target t1) x)) r
+      else (s1, t1, NCancel)
+    else (s1, t1, NCancel)
   end.
 
 (* emitEnterEvents *)
@@ -374,19 +476,20 @@ Fixpoint emit_enters (s : st) (t : tstate) (l : list nat) : st * tstate * nres :
   match l with
   | [] => (s, t, NOk)
   | x :: r =>
-    let '(s1, ok) := handle s (HEnter x) in
-    if ok then emit_enters s1 t r
-    else if mu_auto (t_mut t) && is_auto_state s x then
-      if mem x (t_target t) then emit_enters s1 (with_target t (delete_state (t_target t) x)) r
-      else (s1, t, NCrash)
-    else (s1, t, NCancel)
+    let '(s1, t1, ok) := handle s t (HEnter x) in
+    if hung s1 then (s1, t1, NCancel)
+    else if ok then emit_enters s1 t1 r
+    else if mu_auto (t_mut t1) && is_auto_state s x then
+      if mem x (t_target t1) then emit_enters s1 (with_target t1 (delete_state (t_target t1) x)) r
+      else (s1, t1, NCrash)
+    else (s1, t1, NCancel)
   end.
 
 (* emitSelfEvents. The Go loop ranges over the slice header taken at loop
    start (length L) while slices.Delete shifts the same backing array in
    place and zeroes the tail: [arr] is that array (None = zeroed slot), [i]
-   the loop index, [cur] the current (cached, shortened) target.
-   [last] is the Go variable `ret`: the result of the last handle call. *)
+   the loop index. [last] is the Go variable `ret`: the result of the last
+   handle call. *)
 Fixpoint shift_delete (arr : list (option nat)) (x : nat) : list (option nat) :=
   match arr with
   | [] => []
@@ -405,14 +508,15 @@ Fixpoint emit_selfs (fuel : nat) (s : st) (t : tstate) (arr : list (option nat))
     | Some (Some x) =>
       if negb (is_active s x) then emit_selfs f s t arr (S i) last
       else
-        let '(s1, ok) := handle s (HSelf x) in
-        if ok then emit_selfs f s1 t arr (S i) true
-        else if mu_auto (t_mut t) && is_auto_state s x then
-          if mem x (t_target t) then
-            emit_selfs f s1 (with_target t (delete_state (t_target t) x))
+        let '(s1, t1, ok) := handle s t (HSelf x) in
+        if hung s1 then (s1, t1, NCancel)
+        else if ok then emit_selfs f s1 t1 arr (S i) true
+        else if mu_auto (t_mut t1) && is_auto_state s x then
+          if mem x (t_target t1) then
+            emit_selfs f s1 (with_target t1 (delete_state (t_target t1) x))
                        (shift_delete arr x) (S i) false
-          else (s1, t, NCrash)
-        else (s1, t, NCancel)
+          else (s1, t1, NCrash)
+        else (s1, t1, NCancel)
     end
   end.
 
@@ -425,11 +529,12 @@ Fixpoint emit_trans_inner (s : st) (t : tstate) (b : nat) (after : list nat)
   | a :: r =>
     if Nat.eqb b a then emit_trans_inner s t b r
     else
-      let '(s1, ok) := handle s (HTrans b a) in
-      if ok then emit_trans_inner s1 t b r
-      else if mu_auto (t_mut t) && is_auto_state s a then
-        emit_trans_inner s1 (with_target t (delete_state (t_target t) a)) b r
-      else (s1, t, NCancel)
+      let '(s1, t1, ok) := handle s t (HTrans b a) in
+      if hung s1 then (s1, t1, NCancel)
+      else if ok then emit_trans_inner s1 t1 b r
+      else if mu_auto (t_mut t1) && is_auto_state s a then
+        emit_trans_inner s1 (with_target t1 (delete_state (t_target t1) a)) b r
+      else (s1, t1, NCancel)
   end.
 
 Fixpoint emit_trans (s : st) (t : tstate) (before after : list nat) : st * tstate * nres :=
@@ -442,13 +547,15 @@ Fixpoint emit_trans (s : st) (t : tstate) (before after : list nat) : st * tstat
     end
   end.
 
-(* emitFinalEvents (without faults: never canceled) *)
-Fixpoint emit_finals (s : st) (enters : list nat) (l : list nat) : st :=
+(* emitFinalEvents: returns the key of the handler that made it return
+   Canceled (panic or timeout), if any *)
+Fixpoint emit_finals (s : st) (t : tstate) (l : list nat) : st * tstate * option hkey :=
   match l with
-  | [] => s
+  | [] => (s, t, None)
   | x :: r =>
-    let k := if mem x enters then HState x else HEnd x in
-    emit_finals (fst (handle s k)) enters r
+    let k := if mem x (t_enters t) then HState x else HEnd x in
+    let '(s1, t1, ok) := handle s t k in
+    if ok then emit_finals s1 t1 r else (s1, t1, Some k)
   end.
 
 Definition is_health (s : st) (mu : mutation) : bool :=
@@ -488,6 +595,13 @@ Definition prepend_auto (s : st) : st :=
                      mu_check := false; mu_args := false; mu_qtick := 0 |}
   end.
 
+Fixpoint nclock_eqb (a b : list N) : bool :=
+  match a, b with
+  | [], [] => true
+  | x :: r, y :: s => N.eqb x y && nclock_eqb r s
+  | _, _ => false
+  end.
+
 (* newTransition + emitEvents for one popped mutation.
    Returns the new state and the Result of emitEvents. *)
 Definition run_tx (s : st) (mu : mutation) : st * result :=
@@ -501,16 +615,18 @@ Definition run_tx (s : st) (mu : mutation) : st * result :=
   match nr with
   | NCrash => (set_crashed s1, Canceled)
   | _ =>
+    if hung s1 then (s1, Canceled) else
     let canceled1 := canceled0 || match nr with NCancel => true | _ => false end in
     let canceled2 :=
       if has_handlers s then
         canceled1 || (mu_auto mu && Nat.eqb (length (t_target t1)) 0)
       else canceled1 in
     (* AnyEnter *)
-    let '(s2, canceled3) :=
+    let '(s2, t1, canceled3) :=
       if has_handlers s && negb canceled2 then
-        let '(sx, ok) := handle s1 HAnyEnter in (sx, negb ok)
-      else (s1, canceled2) in
+        let '(sx, tx, ok) := handle s1 t1 HAnyEnter in (sx, tx, negb ok)
+      else (s1, t1, canceled2) in
+    if hung s2 then (s2, Canceled) else
     if mu_check mu then
       (* checks: no apply *)
       let acc := t_accepted t1 && negb canceled3 in
@@ -534,24 +650,37 @@ Definition run_tx (s : st) (mu : mutation) : st * result :=
       if negb canceled3 then
         let cl := set_active_clock (sc s2) (clock s2) (active s2) (mu_called mu) (t_target t2) in
         let s3 := add_ev (set_mach s2 cl (t_target t2)) EvFinals in
-        let s4 := if has_handlers s3 then emit_finals s3 (t_enters t2) (t_exits t2 ++ t_enters t2)
-                  else s3 in
-        let changed := negb (list_eqb (map N.to_nat (clock s4)) (map N.to_nat (t_clock_before t2))) in
-        let s5 := if has_handlers s4 then fst (handle s4 HAnyState) else s4 in
-        let s6 := if changed && negb (mu_auto mu) && negb (is_health s5 mu)
+        (* final handlers; a fault there makes emitEvents call recoverFinalPhase *)
+        let '(s4, t3, fcancel) :=
+          if has_handlers s3 then
+            match emit_finals s3 t2 (t_exits t2 ++ t_enters t2) with
+            | (sx, tx, Some k) => (if hung sx then sx else recover_final_phase sx tx k, tx, true)
+            | (sx, tx, None) => (sx, tx, false)
+            end
+          else (s3, t2, false) in
+        if hung s4 then (s4, Canceled) else
+        let changed := negb (nclock_eqb (clock s4) (t_clock_before t3)) in
+        (* AnyState *)
+        let '(s5, t4, fcancel2) :=
+          if has_handlers s4 && negb fcancel then
+            let '(sx, tx, ok) := handle s4 t3 HAnyState in (sx, tx, negb ok)
+          else (s4, t3, fcancel) in
+        if hung s5 then (s5, Canceled) else
+        let s6 := if negb fcancel2 && changed && negb (mu_auto mu) && negb (is_health s5 mu)
                   then prepend_auto s5 else s5 in
         let res :=
+          if fcancel2 then Canceled else
           match mu_type mu with
           | MRemove => if mach_not s6 (mu_called mu) then Executed else Canceled
           | _ => if mu_auto mu then
-                   (if length (t_before t2) <? length (t_target t2) then Executed else Canceled)
-                 else (if mach_is s6 (t_target t2) then Executed else Canceled)
+                   (if length (t_before t4) <? length (t_target t4) then Executed else Canceled)
+                 else (if mach_is s6 (t_target t4) then Executed else Canceled)
           end in
         let rec := {| tx_type := mu_type mu; tx_called := mu_called mu; tx_auto := mu_auto mu;
                       tx_check := false; tx_qtick := mu_qtick mu;
-                      tx_before := t_clock_before t2; tx_after := cl;
-                      tx_active_before := t_before t2; tx_target := t_target t2;
-                      tx_accepted := t_accepted t2; tx_mach_after := clock s6;
+                      tx_before := t_clock_before t4; tx_after := cl;
+                      tx_active_before := t_before t4; tx_target := t_target t4;
+                      tx_accepted := t_accepted t4 && negb fcancel2; tx_mach_after := clock s6;
                       tx_hfrom := hfrom; tx_hto := length (hlog s6) |} in
         (add_ev (add_tx s6 rec) EvEnd, res)
       else
@@ -569,7 +698,7 @@ Fixpoint drain (fuel : nat) (s : st) (first : option result) : st * option resul
   match fuel with
   | O => (s, first, false)
   | S f =>
-    if crashed s then (s, first, true)
+    if crashed s || hung s then (s, first, true)
     else
     match queue s with
     | [] => (add_ev s EvQueueEnd, first, true)
@@ -616,7 +745,7 @@ Definition top_api (fuel : nat) (s : st) (c : api_call) : st * result * bool :=
   | KToggle => if mach_is s (ac_states c) then top_remove fuel s (ac_states c) (ac_args c)
                else top_add fuel s (ac_states c) (ac_args c)
   | KAddErr => if limit_hit s then (s, Canceled, true)
-               else top_add fuel s [exc s; exc s] true
+               else top_add fuel (set_fault_flags s (loop_dead s) (hung s) 1) [exc s; exc s] true
   | KCanAdd => process_queue fuel (prepend_mut s (check_mut MAdd (ac_states c) (ac_args c)))
   | KCanRemove => process_queue fuel (prepend_mut s (check_mut MRemove (ac_states c) false))
   end.
@@ -627,7 +756,8 @@ Record callobs := {
   co_time : list N;       (* Machine.Time(nil) after the call *)
   co_active : list nat;   (* Machine.ActiveStates(nil) after the call *)
   co_qtick : N;
-  co_ntx : nat            (* number of transitions traced so far *)
+  co_ntx : nat;           (* number of transitions traced so far *)
+  co_err : N              (* Machine.Err(): 0 nil, 1 AddErr error, 2 recovered panic *)
 }.
 
 Fixpoint run_calls_top (fuel : nat) (s : st) (cs : list api_call) (acc : list callobs)
@@ -635,12 +765,12 @@ Fixpoint run_calls_top (fuel : nat) (s : st) (cs : list api_call) (acc : list ca
   match cs with
   | [] => (s, rev acc, true)
   | c :: r =>
-    if crashed s then (s, rev acc, true)
+    if crashed s || hung s then (s, rev acc, true)
     else
     let '(s1, res, ok) := top_api fuel s c in
     let o := {| co_result := res; co_time := clock s1; co_active := active s1;
-                co_qtick := qtick s1; co_ntx := length (txs s1) |} in
-    if crashed s1 then (s1, rev acc, ok)    (* the panicking call returns nothing *)
+                co_qtick := qtick s1; co_ntx := length (txs s1); co_err := err_code s1 |} in
+    if crashed s1 || hung s1 then (s1, rev acc, ok)    (* the panicking / blocked call returns nothing *)
     else if ok then run_calls_top fuel s1 r (o :: acc) else (s1, rev (o :: acc), false)
   end.
 
@@ -650,6 +780,7 @@ Record trace := {
   tr_evs : list tev;
   tr_hlog : list hlentry;
   tr_crashed : bool;
+  tr_hung : bool;
   tr_fuel_ok : bool
 }.
 
@@ -658,9 +789,9 @@ Definition init_st (sch : schema) (tp : list nat) (hl : list nat) (ex : nat)
   {| sc := sch; topo := tp; health := hl; exc := ex; bindings := bs; qlimit := ql;
      clock := map (fun _ => 0%N) sch; active := []; queue := []; qtick := 1; qpending := 0;
      actions := acts; hlog := []; txs := []; evs := [];
-     crashed := false |}.
+     crashed := false; loop_dead := false; hung := false; err_code := 0 |}.
 
 Definition run (fuel : nat) (s0 : st) (cs : list api_call) : trace :=
   let '(s1, obs, ok) := run_calls_top fuel s0 cs [] in
   {| tr_calls := obs; tr_txs := rev (txs s1); tr_evs := rev (evs s1);
-     tr_hlog := rev (hlog s1); tr_crashed := crashed s1; tr_fuel_ok := ok |}.
+     tr_hlog := rev (hlog s1); tr_crashed := crashed s1; tr_hung := hung s1; tr_fuel_ok := ok |}.
